@@ -1,6 +1,8 @@
 import Soa.Lemmas.Positions
 import Soa.Props.C01
 import Soa.Props.C03
+import Soa.Model.Pinned
+import Soa.Extracted.Bodies
 /-!
 # C10 — pointer bundles are faithful field-wise raw pointers  (**partial**)
 
@@ -138,5 +140,14 @@ example : exB.at 2 := by simp [exB, Bundle.at]
 example : ([3, -4, 1].foldl (fun b k => b.shift k) exB).at 2 := by
   have := offsets_sum 2 [3, -4, 1] exB (by simp [exB, Bundle.at])
   simpa using this
+
+/-- **text pin**: the generated functions this property's hand-written model describes have, in
+    /repo today, exactly the text the model was written from (`Soa/Model/Pinned.lean`) -/
+theorem bodies_pinned :
+    Soa.Extracted.bodies.filter (fun r => Soa.Model.scopeOf r == "C10") =
+    Soa.Model.pinned.filter (fun r => Soa.Model.scopeOf r == "C10") := by decide +kernel
+
+theorem bodies_pinned_nonempty :
+    (Soa.Model.pinned.filter (fun r => Soa.Model.scopeOf r == "C10")).length ≥ 4 := by decide +kernel
 
 end Soa.C10
